@@ -527,6 +527,55 @@ def rule_r2(chk, prog):
                           'sequence of accepted inputs', loc=m.loc(a),
                           nontrivial=True)
     chk.floor('C18.R2', 'reads of .runtime', n, 5)
+    # objects that accumulate measured run times are sinks: nothing read
+    # back from them reaches the strategy (calls on them are statements
+    # whose value is discarded)
+    nobj = 0
+    for m in decision_modules(prog):
+        timed = set()
+        for cd in [x for x in m.tree.body if isinstance(x, ast.ClassDef)]:
+            for st in ast.walk(cd):
+                if isinstance(st, (ast.AugAssign, ast.Assign)) and any(
+                        isinstance(x, ast.Attribute) and x.attr == 'runtime'
+                        for x in ast.walk(st.value)):
+                    timed.add(cd.name)
+        if not timed:
+            continue
+        for q, f in m.funcs.items():
+            if getattr(f, '_class', None) is not None and \
+                    f._class.name in timed:
+                continue
+            objs = {st.targets[0].id for st in walk_no_nested(f)
+                    if isinstance(st, ast.Assign) and isinstance(
+                        st.targets[0], ast.Name) and isinstance(
+                            st.value, ast.Call) and (call_name(
+                                st.value) or '').split('.')[-1] in timed}
+            for v in sorted(objs):
+                nobj += 1
+                bad = None
+                for u in ast.walk(f):
+                    if not (isinstance(u, ast.Name) and u.id == v
+                            and isinstance(u.ctx, ast.Load)):
+                        continue
+                    p1 = getattr(u, '_parent', None)
+                    p2 = getattr(p1, '_parent', None)
+                    p3 = getattr(p2, '_parent', None)
+                    if isinstance(p1, ast.Attribute) and isinstance(
+                            p2, ast.Call) and p2.func is p1 and isinstance(
+                                p3, ast.Expr):
+                        continue  # v.method(...) as a statement
+                    bad = p2 if isinstance(p2, ast.Call) else (p1 or u)
+                    break
+                chk.check('C18.R2', f'{m.name}.{q}', f'"{v}" (run-time '
+                          'statistics) is write-only', bad is None,
+                          f'"{unparse(bad)[:60] if bad is not None else ""}" '
+                          'reads back from the statistics object, which '
+                          'accumulates measured run times: timing '
+                          'perturbations of the command change what the '
+                          'strategy does next (order of mutators, '
+                          'candidates, adoption)', loc=m.loc(bad or f),
+                          nontrivial=True)
+    chk.floor('C18.R2', 'run-time statistics objects', nobj, 1)
 
 
 def rule_r3(chk, prog):
